@@ -92,6 +92,8 @@ pub struct Step {
     pub skipped: bool,
     pub skip_why: &'static str,
     pub now: i64,
+    /// the account store before the op (cheap persistent clone) for differential probes
+    pub pre_vm: Option<Vm>,
 }
 
 pub struct Runner {
@@ -384,6 +386,7 @@ impl Runner {
             skipped: false,
             skip_why: "",
             now: self.w.vm.now(),
+            pre_vm: None,
         };
         self.steps += 1;
         let mut token_watch: Option<Pubkey> = None;
@@ -737,6 +740,7 @@ impl Runner {
             }
         }
         let pre_tok = token_watch.map(|k| self.w.tok(&k));
+        st.pre_vm = Some(self.w.vm.clone());
         let r = self.w.vm.exec_tx(&st.ixs);
         st.ok = r.ok;
         st.err = r.err.as_ref().map(|(i, e)| (*i, err_code(e)));
